@@ -425,20 +425,27 @@ def eval_diagram_properties(results, want):
 
 
 # ================================================================================ the checks
-PINNED = {   # theorem names pinned per property file
-    "C06": ["C06_best_exact_solution_is_genuine", "C06_exact_claim_implies_clean_chain"],
-    "C07": ["C07_best_solution_replays_to_best_value", "C07_replay_is_the_true_sum_without_overflow", "C07_compile_never_uses_dangling_ids"],
-    "C08": ["C08_cutset_nodes_are_exact"],
+PINNED = {   # theorem names pinned per property (files Props/Cxx.v and, where it exists, Props/Cxxu.v)
+    "C06": ["C06_best_exact_solution_is_genuine", "C06_exact_claim_implies_clean_chain",
+            "C06_relaxed_value_is_an_upper_bound", "C06_exactness_claim_is_truthful", "C06_holds_on_table_family_bound",
+            "C06_holds_on_table_family_exact", "C06_example_strict_gap", "C06_example_exact_claim"],
+    "C07": ["C07_best_solution_replays_to_best_value", "C07_replay_is_the_true_sum_without_overflow", "C07_compile_never_uses_dangling_ids",
+            "C07_restricted_value_is_feasible", "C07_restricted_value_is_a_lower_bound", "C07_exact_mode_yields_the_optimum",
+            "C07_best_exact_value_is_a_lower_bound", "C07_holds_on_table_family", "C07_holds_on_table_family_exact_mode", "C07_example_strict_gap"],
+    "C08": ["C08_cutset_nodes_are_exact", "C08_cutset_upper_bounds_are_valid", "C08_cutset_covers_the_optimum", "C08_cutset_nodes_are_strictly_deeper",
+            "C08_cutset_is_bounded", "C08_holds_on_table_family_bounds", "C08_holds_on_table_family_cover", "C08_example_cover"],
     "C12": ["C12_callback_protocol", "C12_relax_only_on_genuine_arcs", "C12_next_variable_depths"],
     "C20": ["C20_as_graphviz_total", "C20_layers_never_empty"],
     "C13": ["C13_restricted_width", "C13_relaxed_width_clean", "C13_times_debug_nonzero", "C13_times_release_nonzero",
             "C13_times_release_stays_usize", "C13_divby_nonzero"],
 }
+PROPFILES = {"C06": "C06+C06u", "C07": "C07+C07u", "C08": "C08+C08u"}
+LEVEL = {"C06": "proof", "C07": "proof", "C08": "proof"}
 OPEN = {
-    "C06": ["C06_bound (relaxed best value dominates every completion beating the incumbent)",
-            "C06_exact_truthful(b) (exact relaxed diagram yields the sub-problem optimum)", "pooled flavour"],
-    "C07": ["C07_restricted_exact / C07_exact_mode (optimality of untruncated / exact-mode diagrams)", "pooled flavour"],
-    "C08": ["C08_progress (ii) for the clean flavours", "C08_ub_valid (iii)", "C08_cover (iv)", "pooled flavour ((ii) is false there: finding D1)"],
+    "C06": ["pooled flavour, and compilations with a cache / dominance rule: correspondence + oracle only",
+            "histories of one diagram object: the model compiles from a cleared diagram (the implementation side of the correspondence re-uses one object)"],
+    "C07": ["pooled flavour, and compilations with a cache / dominance rule: correspondence + oracle only"],
+    "C08": ["pooled flavour: correspondence + oracle only ((ii) is false there: finding D1)"],
     "C12": ["clause `for_each_in_domain only for states of that layer` (the expanded list may contain the freshly merged state)"],
     "C13": ["relaxed width bound for the pooled flavour (needs the every-state-impacted hypothesis)"],
     "C20": ["C20_wellformed / C20_faithful as theorems about the string printer (validated by string equality + DOT reader)"],
@@ -539,11 +546,12 @@ def dot_wellformed(dot):
 
 
 def check_diagram(pid, tier):
-    level = "other"
+    level = LEVEL.get(pid, "other")
     chk = Check(pid, tier, level)
     if PINNED[pid]:
-        pr = check_proofs(pid, PINNED[pid])
-        proof_coverage(chk, pr, "make theories/Props/%s.vo && coqc theories/Props/%s.v (Print Assumptions scanned)" % (pid, pid))
+        pf = PROPFILES.get(pid, pid)
+        pr = check_proofs(pf, PINNED[pid])
+        proof_coverage(chk, pr, "make theories/Props/%s.vo && coqc on each (Print Assumptions scanned)" % pf)
     if not build_all(chk): return chk.finish()
     types = {"C06": (1,), "C07": (0, 2), "C08": (1,), "C12": (0, 1, 2), "C13": (1, 2), "C20": (0, 1, 2)}[pid]
     viz = pid == "C20"
@@ -668,7 +676,7 @@ def check_diagram(pid, tier):
                     "disagreements_model_vs_impl": len(dis)})
     chk.cov["explanation"] = ("Executable Coq model of the three diagram implementations (Mdd.v) compared field by field (API results, drained cut-set, full DOT dump, "
                               "callback log) with the code on every case; the property clauses are evaluated on the implementation's answers with the extracted "
-                              "Coq specification (exhaustive enumeration) as oracle. Theorems proved so far: %s. Open: %s."
+                              "Coq specification (exhaustive enumeration) as oracle. Theorems (pinned): %s. Outside the theorems: %s."
                               % (", ".join(PINNED[pid]) or "none registered yet", "; ".join(OPEN[pid]) or "none"))
     chk.cov["open_obligations"] = OPEN[pid]
     return chk.finish()
